@@ -13,24 +13,16 @@ use subtle::{
 impl BoxedUint {
     /// Returns the Ordering between `self` and `rhs` in variable time.
     pub fn cmp_vartime(&self, rhs: &Self) -> Ordering {
-        debug_assert_eq!(self.limbs.len(), rhs.limbs.len());
-        let mut i = self.limbs.len() - 1;
-        loop {
-            // TODO: investigate if directly comparing limbs is faster than performing a
-            // subtraction between limbs
-            let (val, borrow) = self.limbs[i].sbb(rhs.limbs[i], Limb::ZERO);
-            if val.0 != 0 {
-                return if borrow.0 != 0 {
-                    Ordering::Less
-                } else {
-                    Ordering::Greater
-                };
+        // Like the other comparisons, zero-pad the operand of the smaller precision.
+        for i in (0..max(self.limbs.len(), rhs.limbs.len())).rev() {
+            let a = self.limbs.get(i).unwrap_or(&Limb::ZERO);
+            let b = rhs.limbs.get(i).unwrap_or(&Limb::ZERO);
+            match a.0.cmp(&b.0) {
+                Ordering::Equal => (),
+                ord => return ord,
             }
-            if i == 0 {
-                return Ordering::Equal;
-            }
-            i -= 1;
         }
+        Ordering::Equal
     }
 }
 
